@@ -365,6 +365,8 @@ func genRenderStep(r *simrt.Rand, l latticeCfg, nfonts int) Step {
 	st := Step{Op: "render", Draw: genDrawing(r, l, nfonts), Format: formats[r.Intn(len(formats))], Opt: r.Intn(8)}
 	if r.Bool(0.1) {
 		st.FailAt = 1 + r.Intn(12) // disk full / EIO on the k-th write of the renderer
+	} else if r.Bool(0.3) {
+		st.Repeat = true
 	}
 	return st
 }
